@@ -2603,7 +2603,10 @@ extract_manifest_args(const string &name, int num_args, int va_arg,
     int paren_level = 1;
     string arg;
     while (c != EOF) {
-      if (c == ',' && paren_level == 1) {
+      if (c == ',' && paren_level == 1 &&
+          (va_arg < 0 || (int)args.size() < va_arg)) {
+        // (The variable arguments are kept together, commas included, so
+        // that they are substituted and stringified exactly as written.)
         args.push_back(trim_blanks(arg));
         arg = "";
         c = get();
